@@ -1,6 +1,125 @@
-From Asynkit Require Import Base.Prelude Sched.Model.
-(* placeholder: the C13 theorems land in Sched/LockProofs.v *)
-Theorem C13_take_lock_needs_free_lock :
-  forall s l t s', take_lock s l t = inl s' -> lowner (getl s l) = None.
-Proof. intros s l t s'. unfold take_lock. destruct (lowner (getl s l)); [discriminate|reflexivity]. Qed.
-Print Assumptions C13_take_lock_needs_free_lock.
+(* C13 - PriorityLock: mutual exclusion and no lost wake-up under cancel/interrupt.
+   Statements over the executable scheduler model (Sched/Model.v), for ALL user programs
+   (arbitrary [coro] trees), ALL configurations (both loops, any number of locks, tasks,
+   conditions, events) and ALL environment action sequences [acts] that satisfy the side
+   condition [run_ok] (Sched/LockProofs.v), which is checked along the run itself:
+     - no `OSetResult f`/`OSetExc f` (by user code or by the environment) names the future
+       of a *current* PriorityLock waiter - user code cannot obtain that future in the
+       real system; cancelling it (OFutCancel/OCancelAw/OCancel, task_throw, task_interrupt,
+       timeouts) is allowed at every point;
+     - the environment does not call PriorityLock.acquire from outside a task
+       (`ADo (OAcquire _)`; the real code asserts current_task() is not None).
+   Vocabulary (Sched/LockInv.v): [woken s f] = the future holds a result or an exception
+   (done and not cancelled: the test of the repaired _wake_up_first);
+   [pq_objs (lpq (getl s l))] = the futures of the waiters queued on lock l. *)
+From Coq Require Import QArith.
+From Asynkit Require Import Base.Prelude Queue.PQ Queue.PosPQ Queue.Exec Sched.Model Sched.Corr
+  Sched.QFacts Sched.LockInv Sched.LockOps Sched.LockLib Sched.LockProofs Sched.LockThms.
+Open Scope nat_scope.
+
+(* The inductive invariant (record [Inv], Sched/LockInv.v: I1 ownership bookkeeping,
+   well-formed waiter queues, I5 at most one woken waiter and none while owned, lock-waiter
+   futures are known to nobody else, handles/callbacks name existing tasks, suspended
+   acquire frames are unique and their future is queued) holds in every reachable state. *)
+Theorem C13_inv :
+  forall (prio_loop : bool) (factor : Q) (draws : list Q) (lks : list lkind)
+         (cds : list (ckind * nat)) (nev : nat) (acts : list action),
+    run_ok (init_st prio_loop factor draws lks cds nev) acts ->
+    Inv (fold_left do_action acts (init_st prio_loop factor draws lks cds nev)).
+Proof. exact C13_inv_all. Qed.
+Print Assumptions C13_inv.
+
+(* Mutual exclusion, and locked() reflects it: in every reachable state, for every lock l,
+   at most one task records l as held and it is the owner; a PriorityTask that owns l
+   records it; for a PriorityLock, locked <-> it has an owner. *)
+Theorem C13_mutex :
+  forall prio_loop factor draws lks cds nev acts,
+    run_ok (init_st prio_loop factor draws lks cds nev) acts ->
+    let s := fold_left do_action acts (init_st prio_loop factor draws lks cds nev) in
+    forall l, l < length (locks s) ->
+      (forall t1 t2, In l (tholding (gett s t1)) -> In l (tholding (gett s t2)) -> t1 = t2) /\
+      (forall t, In l (tholding (gett s t)) -> lowner (getl s l) = Some t) /\
+      (forall t, lowner (getl s l) = Some t -> is_prio_task s t = true ->
+                 In l (tholding (gett s t))) /\
+      (lkind_ (getl s l) = LPrio ->
+       (llocked (getl s l) = true <-> exists t, lowner (getl s l) = Some t)).
+Proof. intros. eapply mutex_reach; eauto. Qed.
+Print Assumptions C13_mutex.
+
+(* I5: at most one queued waiter of a lock has been woken with a result, and none while
+   the lock is owned. *)
+Theorem C13_at_most_one_woken :
+  forall prio_loop factor draws lks cds nev acts,
+    run_ok (init_st prio_loop factor draws lks cds nev) acts ->
+    let s := fold_left do_action acts (init_st prio_loop factor draws lks cds nev) in
+    forall l,
+      (forall f1 f2, In f1 (pq_objs (lpq (getl s l))) -> In f2 (pq_objs (lpq (getl s l))) ->
+         woken s f1 = true -> woken s f2 = true -> f1 = f2) /\
+      (lowner (getl s l) <> None ->
+       forall f, In f (pq_objs (lpq (getl s l))) -> woken s f = false).
+Proof. intros. eapply one_woken_reach; eauto. Qed.
+Print Assumptions C13_at_most_one_woken.
+
+(* `assert self._owning is None` never fails for a woken waiter: whenever the code after
+   `await fut` of PriorityLock.acquire is entered in a reachable state with a successful
+   wake-up (input RVal) for a queued waiter whose future holds a result, _take_lock
+   succeeds and acquire() returns True. *)
+Theorem C13_take_lock_only_when_free :
+  forall prio_loop factor draws lks cds nev acts,
+    run_ok (init_st prio_loop factor draws lks cds nev) acts ->
+    let s := fold_left do_action acts (init_st prio_loop factor draws lks cds nev) in
+    forall l t f had v v',
+      In f (pq_objs (lpq (getl s l))) -> fstate_ (getf s f) = FResult v' ->
+      snd (acquire_p_finish s t l f had (RVal v)) = RVal 1 /\
+      exists s', take_lock s l t = inl s'.
+Proof. intros. eapply take_reach; eauto. Qed.
+Print Assumptions C13_take_lock_only_when_free.
+
+(* I4, no lost wake-up (the half about futures): in every reachable state a free
+   PriorityLock with waiters has a waiter whose future is done - woken with a result (by
+   C13_at_most_one_woken there is at most one such), or cancelled.  The task of a done
+   future has been scheduled by Future.__schedule_callbacks / the cancel/interrupt that
+   completed it, and its acquire() either takes the lock or, in its finally clause, calls
+   _wake_up_first again (lstep_acquire_p_finish).  That the scheduled handle is eventually
+   run is a property of the ready queue (C08/C10), not claimed here. *)
+Theorem C13_wake_in_flight :
+  forall prio_loop factor draws lks cds nev acts,
+    run_ok (init_st prio_loop factor draws lks cds nev) acts ->
+    let s := fold_left do_action acts (init_st prio_loop factor draws lks cds nev) in
+    forall l, lkind_ (getl s l) = LPrio -> llocked (getl s l) = false ->
+      pq_objs (lpq (getl s l)) <> [] ->
+      exists f, In f (pq_objs (lpq (getl s l))) /\ fdone s f = true.
+Proof. intros. eapply wake_in_flight_reach; eauto. Qed.
+Print Assumptions C13_wake_in_flight.
+
+(* Non-vacuity: a reachable state with an owner and two queued contenders (suspended in
+   `await fut` of acquire); a reachable state with a free lock and exactly one woken waiter
+   that is no longer the heap head; and the run ends with everybody served. *)
+Theorem C13_examples :
+  (reachable stA /\ objs stA 0 = [3; 4] /\ lowner (getl stA 0) = Some 0 /\
+   llocked (getl stA 0) = true /\ tholding (gett stA 0) = [0] /\
+   tframes stA 1 = [InFut 3; InAcquireP 0 3 true] /\ tframes stA 2 = [InFut 4; InAcquireP 0 4 true]) /\
+  (reachable stB /\ objs stB 0 = [6; 4; 3] /\ lowner (getl stB 0) = None /\
+   map (woken stB) [6; 4; 3] = [false; false; true] /\
+   map (fun f => fstate_ (getf stB f)) [6; 4; 3] = [FPending; FCancelled; FResult 1]) /\
+  (reachable stC /\
+   map (fun t => fstate_ (getf stC (tfut t))) (tasks stC) = [FResult 0; FResult 0; FCancelled; FResult 0] /\
+   objs stC 0 = [] /\ lowner (getl stC 0) = None /\ llocked (getl stC 0) = false /\
+   map (fun t => (tholding t, twaiting t)) (tasks stC) = [([], None); ([], None); ([], None); ([], None)]).
+Proof. exact (conj two_contenders (conj hand_over_in_progress all_served)). Qed.
+Print Assumptions C13_examples.
+
+(* The code before the fix (_wake_up_first wakes the head whenever it is not done) breaks
+   I5 and mutual exclusion: in the reachable state stB (W1 woken by release(); the more
+   urgent W0 queued in front of it; W2 cancelled) the finally clause of W2 wakes the new
+   head W0 as well; W1 takes the lock and W0 then fails `assert self._owning is None`
+   (two owners under python -O).  The repaired finally clause wakes nobody. *)
+Theorem C13_refuted_before_fix :
+  reachable stB /\
+  (In 6 (objs stB_old 0) /\ In 3 (objs stB_old 0) /\ woken stB_old 6 = true /\ woken stB_old 3 = true) /\
+  ~ Inv stB_old /\
+  snd (acquire_p_finish_old stB_old 1 0 3 true (RVal 0)) = RVal 1 /\
+  snd (acquire_p_finish_old stB_old2 3 0 6 true (RVal 0)) = RExc EAssertion /\
+  map (woken (fst (acquire_p_finish stB 2 0 4 true (RExc ECancelled)))) [6; 3] = [false; true].
+Proof. exact refuted_before_fix. Qed.
+Print Assumptions C13_refuted_before_fix.
